@@ -118,12 +118,16 @@ def classify(Z, Xt, method):
     """mechanism classifier over the witness geometry (for known-finding matching).
     pair-on-x-pole : rotate_with_quaternion freezes the frame when |1+v_x| < 1e-7, i.e. for a pair vector
                      (with at least one p-bearing atom) within 4.47e-4 rad of +-x  -> threshold 4.6e-4 rad.
-    pm6-pair-on-z  : RotationMatrixD freezes the azimuth when sqrt(vx^2+vy^2) < 1e-10 (exact +-z alignment).
+    pm6-pair-on-z  : RotationMatrixD freezes the azimuth when sqrt(vx^2+vy^2) < 1e-10 (exact +-z alignment, any
+                     non-hydrogen pair); for a pair with a d-orbital atom the polar-angle derivative is also
+                     ill-conditioned near the pole (measured force error 7e-10/theta eV/A for SO2: 7e-6 at 1e-4 rad,
+                     2.3e-6 at 3e-4 rad) -> listed for theta < 2e-4 rad.
     pm6-dd-pair-not-rotation-invariant : under PM6 the integrals of a pair in which BOTH atoms carry d orbitals
                      (Al, Si, P, S, Cl) depend on the orientation of the pair (any orientation)."""
     n = len(Z)
     amin_x = 9.0
     xymin = 9.0
+    xymin_d = 9.0
     for i in range(n):
         for j in range(i + 1, n):
             if Z[i] <= 1 and Z[j] <= 1:
@@ -132,10 +136,12 @@ def classify(Z, Xt, method):
             v = v / np.linalg.norm(v)
             amin_x = min(amin_x, math.atan2(math.hypot(v[1], v[2]), abs(v[0])))
             xymin = min(xymin, math.hypot(v[0], v[1]))
+            if Z[i] in D_ELEMENTS_PM6 or Z[j] in D_ELEMENTS_PM6:
+                xymin_d = min(xymin_d, math.hypot(v[0], v[1]))
     if method == "PM6" and any(Z[i] in D_ELEMENTS_PM6 and Z[j] in D_ELEMENTS_PM6
                                for i in range(n) for j in range(i + 1, n)):
         return "pm6-dd-pair-not-rotation-invariant"
-    if method == "PM6" and xymin < 1e-9:
+    if method == "PM6" and (xymin < 1e-9 or xymin_d < 2e-4):
         return "pm6-pair-on-z"
     if amin_x < 4.6e-4:
         return "pair-on-x-pole"
